@@ -31,6 +31,7 @@ EXPLANATION = (
   " (ITEM-source) an object built once per item of an inner loop is filled only with values that derive from that item or do not vary with the loops, never with a value of the enclosing container standing where the item's own belongs;"
   ' (COVER-content) the test that decides which elements extend the cached content interval covers every leaf kind that snapshot generation treats as text (line breaks, text nodes), directly or through every kind that may contain it;'
   ' (LOOP-break) no loop over the items of a collection is left by a branch that does nothing but `break` on a test about the item (end-of-input sentinels, flags set in the loop body and searches whose variable is read afterwards excepted): an item that is to be skipped does not end the processing of the items after it;'
+  " (ABSENT-style) the region-background predicate, interpreted on a region that specifies no style, does not conclude that the region paints nothing (the document's initial values are applied only in the snapshot);"
 )
 RULE_TEXT = "per mutator call / mutating call argument, per copy_to variant x field, per early return, per module-level store"
 UNDECIDED = ["equality of cached and uncached results over all documents and times", "equality of repeated calls as values",
@@ -125,6 +126,21 @@ def check_region_background(ctx):
             "_region_always_has_background concludes from the specified styles alone that a region paints nothing: a region whose background is "
             "made visible by a set step is dropped from cached snapshots")
   trav.check_anim_cover(ctx, f, f.params[0])
+  # a region that specifies nothing may still paint (the document's initial values apply to it in the snapshot): the predicate,
+  # interpreted on a region without any specified style or animation step, must not conclude that it paints nothing
+  from ..consteval import NotConst as _NC, Raised as _R
+  from ..rules.minieval import MiniEval, Node
+  bare = Node("Region", "bare_region", (), animation_steps=[])
+  try:
+    r_ = MiniEval(ix, node_methods={"get_style": lambda n_, p_: None, "has_style": lambda n_, p_: False}).call(f, [bare])
+    ctx.check(r_ is True, "ABSENT-style", f"{f.qualname}|a region without specified styles is not concluded to paint nothing", ctx.where(f.module, f.node),
+              "interpreted on a region with no specified style: True (the initial values of the document decide in the snapshot)",
+              f"interpreted on a region that specifies no style and has no animation step, the predicate returns {r_!r}: it concludes from absent values (i.e. from the TTML defaults) "
+              "that the region paints nothing, while the snapshot applies the document's initial values - a region painted through <initial> values is dropped from cached snapshots")
+  except _R:
+    ctx.bad("ABSENT-style", f"{f.qualname}|a region without specified styles is not concluded to paint nothing", ctx.where(f.module, f.node), "interpreted on a region with no specified style, the predicate raises")
+  except _NC as ex_:
+    ctx.undecide("ABSENT-style", f"{f.qualname}: not in the interpreted subset ({ex_})")
   # and the content interval uses it only to *extend* the interval
   st = ix.func("ttconv.isd:ISD.significant_times.<locals>.compute_sig_times")
   # (the call, on whatever name holds the element, inside the test that extends the content interval)
